@@ -277,6 +277,16 @@ func checkC15(c *Check) {
 
 	// 3. error hand-off
 	handoffRule(c, cone, read)
+
+	// 4. every reassembled event reaches the correlator (stream callback rules shared with C14)
+	sub := NewCheck("C14", "other", c.Tier, c.P)
+	callbackPipeline(sub)
+	for _, o := range sub.Obls {
+		if o.Rule == "callback-pipeline" || o.Rule == "anchor" {
+			o.Rule = "event-reaches-correlator: " + o.Rule
+			c.Obls = append(c.Obls, o)
+		}
+	}
 }
 
 // loopCarried: the call's block can reach itself without leaving through a return.
